@@ -3,7 +3,8 @@
    OCSP responses are linted without a recovery net, so these bodies must be total: as Gallina functions of the view
    they are, and the correspondence ties them to the code.
 
-     e_cab_crl_reason_code_not_critical, e_cab_crl_has_valid_reason_code, e_crl_next_update_invalid   (cabf_br)
+     e_cab_crl_reason_code_not_critical, e_cab_crl_has_valid_reason_code, e_crl_next_update_invalid   (cabf_br;
+       the last one with its calendar arithmetic - time.AddDate of 10 days / 12 months - modelled in Kernels/Calendar.v)
      e_crl_unique_revoked_certificate                                                                 (community)
      e_crl_has_authority_key_identifier, e_crl_has_next_update, e_crl_missing_crl_number,
      e_crl_has_valid_reason_code                                                                      (rfc)
@@ -11,6 +12,7 @@
 
    Statuses: 1 NA, 3 pass, 5 warn, 6 error. *)
 From Coq Require Import List ZArith Bool Lia Sorting.Permutation.
+From ZL Require Import Kernels.Calendar.
 Import ListNotations.
 Open Scope Z_scope.
 
@@ -23,8 +25,8 @@ Record crl_entry := mkEntry {
 Record crl_view := mkCrlView {
   cv_entries : list crl_entry;
   cv_next_present : bool;        (* nextUpdate is present *)
-  cv_next_after_10d : bool;      (* nextUpdate is after thisUpdate + 10 days   (time.AddDate: library oracle) *)
-  cv_next_after_12m : bool;      (* nextUpdate is after thisUpdate + 12 months (time.AddDate: library oracle) *)
+  cv_this : Z;                   (* thisUpdate, seconds since 1970-01-01T00:00:00Z *)
+  cv_next : Z;                   (* nextUpdate, likewise (meaningless when absent) *)
   cv_has_aki : bool;
   cv_has_number : bool;
   cv_subscriber_crl : bool       (* configuration of e_crl_next_update_invalid (default true) *)
@@ -46,7 +48,7 @@ Definition c_cab_valid_reason (v : crl_view) : Z :=
     (existsb (fun e => match ce_reason e with Some c => negb (memz c br_valid_reasons) | None => false end) (cv_entries v)).
 
 Definition c_next_update_invalid (v : crl_view) : Z :=
-  verdict 6 (cv_next_present v) (if cv_subscriber_crl v then cv_next_after_10d v else cv_next_after_12m v).
+  verdict 6 (cv_next_present v) (next_update_too_late (cv_subscriber_crl v) (cv_this v) (cv_next v)).
 
 Fixpoint has_dup_z (l : list Z) : bool :=
   match l with [] => false | x :: r => memz x r || has_dup_z r end.
@@ -123,7 +125,7 @@ Proof.
 Qed.
 
 Definition with_entries (v : crl_view) (es : list crl_entry) : crl_view :=
-  mkCrlView es (cv_next_present v) (cv_next_after_10d v) (cv_next_after_12m v) (cv_has_aki v) (cv_has_number v) (cv_subscriber_crl v).
+  mkCrlView es (cv_next_present v) (cv_this v) (cv_next v) (cv_has_aki v) (cv_has_number v) (cv_subscriber_crl v).
 
 Lemma nonempty_perm {A} (l l' : list A) : Permutation l l' -> nonempty l = nonempty l'.
 Proof.
@@ -139,7 +141,7 @@ Proof.
   intros v es' P. assert (PS := Permutation_sym P).
   unfold all_crl_lints. cbn [firstn].
   unfold c_reason_not_critical, c_cab_valid_reason, c_next_update_invalid, c_unique_serials, c_has_aki, c_has_next_update, c_has_number.
-  cbn [with_entries cv_entries cv_next_present cv_next_after_10d cv_next_after_12m cv_has_aki cv_has_number cv_subscriber_crl].
+  cbn [with_entries cv_entries cv_next_present cv_this cv_next cv_has_aki cv_has_number cv_subscriber_crl].
   rewrite (nonempty_perm _ _ PS), !(existsb_perm _ es' (cv_entries v) PS).
   rewrite (has_dup_z_perm (map ce_serial es') (map ce_serial (cv_entries v)) (Permutation_map _ PS)). reflexivity.
 Qed.
